@@ -45,11 +45,21 @@ type c07Result struct {
 // c07Step performs one checked Refilter on a ready node (quiet world).
 func c07Step(w *world, n *node, next int) c07Result {
 	before := listContent(w, n.leaf.Cache(), n.path())
-	var parentCache kcache.CacheReader
-	if n.parent.leaf != nil {
-		parentCache = n.parent.leaf.Cache()
+	// the parent's content comes from the reference model (the filters on the parent's path applied to
+	// the controller's view), not from the parent's own List(): a parent that lists wrongly must not be
+	// its child's oracle.  The world is quiet here, so the two agree on the unchanged tree (checked).
+	parent := map[string]metav1.Object{}
+	for _, o := range w.view {
+		if o.GetNamespace() != markerNS && w.effective(n.parent, o) {
+			parent[objKey(o)] = o
+		}
 	}
-	parent := listContent(w, parentCache, n.parent.path())
+	if n.parent.leaf != nil {
+		listed := listContent(w, n.parent.leaf.Cache(), n.parent.path())
+		if fmtContent(listed) != fmtContent(parent) {
+			w.fail("before a checked Refilter on %s: its parent's List() returns %s, the reference content of the parent is %s", n.path(), fmtContent(listed), fmtContent(parent))
+		}
+	}
 	prev := n.filt
 	i := n.eventCount()
 	w.refilter(n, next)
